@@ -708,6 +708,24 @@ def rule_ok_requires_digits(col, facts):
                             ok = True
                     if not ok:
                         bad_alt = alt
+                if bad_alt is not None:
+                    # `let is_empty = cfg!(..) && required_digits!() && count == 0; if is_empty { Err } ... Ok`: the
+                    # test sits in a boolean local - read it along every path to the Ok
+                    from rules.core import every_path_has
+                    def _lets_through(e, p):
+                        e = strip_casts(e)
+                        if e[0] == "kc" and last_seg(e[1]).startswith("REQUIRED_") and p is False:
+                            return True
+                        lhs = strip_casts(e[2]) if e[0] == "bin" else None
+                        is_count = lhs is not None and ((lhs[0] == "call" and last_seg(lhs[1]) == "current_count") or lhs[0] in ("var", "k"))
+                        if e[0] == "bin" and e[1] == "Eq" and strip_casts(e[3]) == ("k", 0) and p is False and is_count:
+                            return True
+                        return e[0] == "bin" and e[1] == "Ne" and strip_casts(e[3]) == ("k", 0) and p is True and is_count and lhs[0] == "call"
+                    try:
+                        if every_path_has(f, i, _lets_through):
+                            bad_alt = None
+                    except AnchorMissing:
+                        pass
                 col.check(R, "%s:ok#%d" % (name, n), bad_alt is None,
                           "an Ok(..) result is returned on a path that neither found the format not to require digits nor a non-zero digit count (last conditions: %s)" % ([(show(e)[:50], p) for _d, e, p in (bad_alt or [])][-3:]), f.loc(st[3]))
         col.floor(R, "Ok sites in %s" % name, n, 2)   # the empty-after-sign exit and the final one (the lone-zero exit went with F36)
